@@ -92,7 +92,8 @@ HIST_QUICK = [dict(N=3, T=2, byName=True, free=MOVES), dict(N=3, T=2, byName=Tru
 HIST_THOROUGH = [dict(N=3, T=3, byName=True, free=MOVES + ("skipB",)), dict(N=4, T=2, byName=True, free=MOVES),
                  dict(N=3, T=3, byName=True, free=POPULATION + ("skipA", "explicit")),
                  dict(N=3, T=2, byName=True, free=MOVES + POPULATION),
-                 dict(N=3, T=3, byName=False, free=("order", "absent", "skipA", "skipB", "explicit"))]
+                 dict(N=3, T=3, byName=False, free=("order", "skipA", "explicit")),
+                 dict(N=3, T=3, byName=False, free=("orderLast", "absent", "skipB"))]
 
 
 @harness("C06", bounds="N = 2..3 (thorough: 4) assemblies with one block each, T = 2..3 snapshots; solver-chosen per "
